@@ -73,6 +73,8 @@ class Ctx(object):
 
 
 def quiet_logging():
+    import warnings
+    warnings.filterwarnings('ignore')
     root = logging.getLogger()
     root.setLevel(logging.DEBUG)
     for h in list(root.handlers):
